@@ -443,3 +443,53 @@ func txFinisherKind(g *ssa.Function, p *ssa.Parameter) string {
 	}
 	return "Rollback"
 }
+
+// chunkAliasing (R08.9): a chunk handed out by xslices.Chunk is a view into the chunked slice.
+func (c *Ctx) chunkAliasing(rule string) {
+	P, R := c.P, c.R
+	R.Explain(rule, "chunk discipline, aliasing part: the sub-slices returned by xslices.Chunk share the backing array of the chunked slice and all but the last have spare capacity, so append(chunk, x) overwrites the first element of the next chunk (that element is then bound as the wrong value / skipped by the statement).  No append has a Chunk element as its destination; arguments are added to a copy (MapSliceToAny(chunk), a fresh slice).")
+	isChunkCall := func(v ssa.Value) bool {
+		call, ok := v.(*ssa.Call)
+		if !ok {
+			return false
+		}
+		sc := call.Call.StaticCallee()
+		return sc != nil && engine.BaseName(sc) == "Chunk" && strings.Contains(engine.PkgPathOf(sc), "xslices")
+	}
+	fromChunk := func(v ssa.Value) bool {
+		return engine.AnyBackward(v, engine.FlowOpts{Loads: true}, func(x ssa.Value) bool {
+			u, ok := x.(*ssa.UnOp)
+			if !ok {
+				return false
+			}
+			ia, ok := u.X.(*ssa.IndexAddr)
+			if !ok {
+				return false
+			}
+			return engine.AnyBackward(ia.X, engine.FlowOpts{Loads: true}, isChunkCall)
+		})
+	}
+	chunks, appends := 0, 0
+	for _, f := range c.productFuncs() {
+		uses := false
+		for _, cs := range engine.Calls(f) {
+			if call, ok := cs.Instr.(*ssa.Call); ok && isChunkCall(call) {
+				uses = true
+				chunks++
+			}
+		}
+		if !uses {
+			continue
+		}
+		for _, cs := range engine.Calls(f) {
+			bi, ok := cs.Common().Value.(*ssa.Builtin)
+			if !ok || bi.Name() != "append" || len(cs.Common().Args) == 0 {
+				continue
+			}
+			appends++
+			R.Check(!fromChunk(cs.Common().Args[0]), rule, c.name(f)+"|append-destination", P.Pos(cs.Pos()), "append does not write into a chunk view", "append's destination is an element of xslices.Chunk(...): it has spare capacity inside the chunked slice, so the appended value overwrites the first element of the next chunk - ids at every multiple of the chunk size are bound wrongly or skipped")
+		}
+	}
+	R.Min(rule, "functions using xslices.Chunk", chunks, 10)
+	_ = appends
+}
